@@ -417,9 +417,10 @@ class Shadow:
             else:
                 raise Unsupported(f"foreach op {op}")
             if inplace:
-                if not isinstance(dst, Cell):
-                    raise Unsupported("in-place foreach on a non-tensor")
-                dst.v = res
+                if isinstance(dst, Cell):
+                    dst.v = res
+                # an in-place write to something that is not one of the modelled tensors (an unknown attribute, a foreign
+                # list) updates nothing the oracle looks at: the comparison then reports the missing update
                 return None
             return ListRep(Cell(res))
         if name in ("torch.tensor", "torch.as_tensor"):
